@@ -27,8 +27,8 @@ for (prop, op), d in sorted(byop.items()):
                            "obligation": f"si:{op}*", "region": "table:known_vsa_tables.json", "what": what[:600],
                            "witness": d["case"]})
     kf["findings"].append({"id": f"{prop}-si-{op}-wide", "property": prop, "status": "open",
-                           "obligation": f"si:{op}*:[4-9]", "region": "true", "coarse": True,
-                           "what": f"StridedInterval {op} at widths without an exact table (>= 4): same defect as {prop}-si-{op}; the whole obligation is treated as known",
+                           "obligation": f"si:{op}*", "region": "true", "coarse": True,
+                           "what": f"StridedInterval {op} at widths without an exact table (>= 4; lub3: >= 3): same defect as {prop}-si-{op}; the whole obligation is treated as known",
                            "witness": d["case"]})
 json.dump(kf, open(os.path.join(ROOT, "known_findings.json"), "w"), indent=1)
 print(len(kf["findings"]), "findings")
